@@ -264,6 +264,74 @@ structure St where
   out : Out
   deriving Repr
 
+/-- "Adjust the column for the item to be rendered": the `group_column` and `child_is_indented` the
+next item is rendered with. -/
+def preAdjust (o : Opt) (tooLong force indented : Bool) (st : St) : Nat × Bool :=
+  let accept := !(st.firstItem && indented)
+  let pre := st.pending.needsLinebreak tooLong force accept
+  let preIndent := pre && st.pending.needsIndent tooLong force indented
+  (if pre then (if preIndent then st.column + o.indentWidth else st.column) else st.groupColumn,
+   if preIndent then true else st.childIndented)
+
+/-- "Check for 'indented break if necessary' items": the pending break after the fit test of the
+`…IfNecessary` kinds (`firstW` = width of the first line of the rendered item). -/
+def resolvePending (o : Opt) (indented : Bool) (st : St) (firstW : Nat) : Brk :=
+  match st.pending with
+  | .spaceOrIndentIfNecessary =>
+    if decide (st.lineWidth + firstW + 1 ≤ o.lineLen) then .none else ifNecessaryBreak indented
+  | .indentIfNecessary =>
+    if decide (st.lineWidth + firstW ≤ o.lineLen) then .none else ifNecessaryBreak indented
+  | b => b
+
+/-- The rest of the loop body once the item has been rendered to the text `t` (with the values
+`gc1`, `ci1` of `preAdjust`): the `…IfNecessary` fit tests, what is emitted in front of the item,
+and the bookkeeping. -/
+def stepItem (o : Opt) (tooLong force indented : Bool) (st : St) (gc1 : Nat) (ci1 : Bool) (t : Out) : St :=
+  let accept := !(st.firstItem && indented)
+  let firstW := t.firstW
+  -- "Check for 'indented break if necessary' items"
+  let fitsS := decide (st.lineWidth + firstW + 1 ≤ o.lineLen)
+  let pending2 : Brk := resolvePending o indented st firstW
+  let spaced := st.pending == .spaceOrIndentIfNecessary && fitsS && decide (firstW > 0)
+  let out2 := if spaced then st.out.emit 1 else st.out
+  let firstW2 := if spaced then firstW + 1 else firstW
+  -- "Emit linebreaks if necessary"
+  let act := pending2.action tooLong force indented accept
+  let out3 : Out :=
+    match act with
+    | .newlineIndent => (out2.newline.emit st.column).emit o.indentWidth
+    | .newline => out2.newline.emit st.column
+    | .returnOnly => out2.emit st.column
+    | .space => out2.emit 1
+    | .nothing => out2
+  let gc : Nat :=
+    match act with
+    | .newlineIndent => st.column + o.indentWidth
+    | .newline | .returnOnly => st.column
+    | _ => gc1
+  let lw : Nat :=
+    match act with
+    | .newlineIndent => st.column + o.indentWidth
+    | .newline | .returnOnly => st.column
+    | _ => st.lineWidth
+  let ci : Bool :=
+    match act with
+    | .newlineIndent => true
+    | .returnOnly => false
+    | _ => ci1
+  let lastW := if t.multi then t.lastW else firstW2
+  { column := st.column, groupColumn := gc, pending := .none, lineWidth := lw + lastW,
+    childIndented := ci, firstItem := false, out := out3.append t }
+
+/-- a `GroupBreak` item in the loop -/
+def stepBrk (o : Opt) (indented : Bool) (b : Brk) (st : St) : St :=
+  match b with
+  | .startBlock =>
+    { st with column := st.column + o.indentWidth, groupColumn := st.column + o.indentWidth,
+              out := st.out.newline, pending := .none }
+  | .indentedBreak => { st with pending := if indented then .maybeIndent else .indentedBreak }
+  | b => { st with pending := b }
+
 mutual
 /-- `FormatItem::render(output = fresh buffer, indented, render_optional, options, column)`;
 `none` = an `Error` item was met. -/
@@ -292,15 +360,7 @@ def flatItems (o : Opt) : Items → Nat → Out → Option Out
 /-- the break branch: `for item in items { match item { … } }` -/
 def loopItems (o : Opt) (tooLong force indented : Bool) : Items → St → Option St
   | .nil, st => some st
-  | .cons (.brk b) rest, st =>
-    let st' : St :=
-      match b with
-      | .startBlock =>
-        { st with column := st.column + o.indentWidth, groupColumn := st.column + o.indentWidth,
-                  out := st.out.newline, pending := .none }
-      | .indentedBreak => { st with pending := if indented then .maybeIndent else .indentedBreak }
-      | b => { st with pending := b }
-    loopItems o tooLong force indented rest st'
+  | .cons (.brk b) rest, st => loopItems o tooLong force indented rest (stepBrk o indented b st)
   | .cons .lineBreak rest, st =>
     loopItems o tooLong force indented rest { st with out := st.out.newline, pending := .none }
   | .cons i rest, st =>
@@ -310,55 +370,10 @@ def loopItems (o : Opt) (tooLong force indented : Bool) : Items → St → Optio
       | none => none
       | some t => loopItems o tooLong force indented rest { st with out := st.out.append t, pending := .none }
     else
-      let accept := !(st.firstItem && indented)
-      -- "Adjust the column for the item to be rendered"
-      let pre := st.pending.needsLinebreak tooLong force accept
-      let preIndent := pre && st.pending.needsIndent tooLong force indented
-      let gc1 := if pre then (if preIndent then st.column + o.indentWidth else st.column) else st.groupColumn
-      let ci1 := if preIndent then true else st.childIndented
-      match renderItem o i ci1 (tooLong || ci1) gc1 with
+      let p := preAdjust o tooLong force indented st
+      match renderItem o i p.2 (tooLong || p.2) p.1 with
       | none => none
-      | some t =>
-        let firstW := t.firstW
-        -- "Check for 'indented break if necessary' items"
-        let fitsS := decide (st.lineWidth + firstW + 1 ≤ o.lineLen)
-        let fitsI := decide (st.lineWidth + firstW ≤ o.lineLen)
-        let pending2 : Brk :=
-          match st.pending with
-          | .spaceOrIndentIfNecessary => if fitsS then .none else ifNecessaryBreak indented
-          | .indentIfNecessary => if fitsI then .none else ifNecessaryBreak indented
-          | b => b
-        let spaced := st.pending == .spaceOrIndentIfNecessary && fitsS && decide (firstW > 0)
-        let out2 := if spaced then st.out.emit 1 else st.out
-        let firstW2 := if spaced then firstW + 1 else firstW
-        -- "Emit linebreaks if necessary"
-        let act := pending2.action tooLong force indented accept
-        let out3 : Out :=
-          match act with
-          | .newlineIndent => (out2.newline.emit st.column).emit o.indentWidth
-          | .newline => out2.newline.emit st.column
-          | .returnOnly => out2.emit st.column
-          | .space => out2.emit 1
-          | .nothing => out2
-        let gc : Nat :=
-          match act with
-          | .newlineIndent => st.column + o.indentWidth
-          | .newline | .returnOnly => st.column
-          | _ => gc1
-        let lw : Nat :=
-          match act with
-          | .newlineIndent => st.column + o.indentWidth
-          | .newline | .returnOnly => st.column
-          | _ => st.lineWidth
-        let ci : Bool :=
-          match act with
-          | .newlineIndent => true
-          | .returnOnly => false
-          | _ => ci1
-        let lastW := if t.multi then t.lastW else firstW2
-        loopItems o tooLong force indented rest
-          { column := st.column, groupColumn := gc, pending := .none, lineWidth := lw + lastW,
-            childIndented := ci, firstItem := false, out := out3.append t }
+      | some t => loopItems o tooLong force indented rest (stepItem o tooLong force indented st p.1 p.2 t)
 end
 
 /-- `render_group` for the items of a group, as text shape (first line first); `none` on `Error` -/
